@@ -467,6 +467,9 @@ class ConcurrentExecutor(ABC, Generic[CallableType, ResultType]):
                 )
 
             elif checkpoint.is_failed():
+                # a failed branch is not re-run: count it as visited, otherwise replay tracking
+                # never sees this completed operation and the execution stays in REPLAY mode
+                execution_state.track_replay(operation_id=operation_id)
                 error = checkpoint.error
                 status = BatchItemStatus.FAILED
             else:
